@@ -6,9 +6,9 @@ LEVEL = 'exploration'
 CONFIGS = [('c-inference', 'rc2')]
 WEAKLY = False
 WANT = 'strong'
-RULE = ("strongly consistent bases of <= 5 atoms / <= 5 conditionals (unfalsifiable conditionals, Top/Bottom, duplicates, single-conditional bases included); judged by M5: a counter c-representation found by bounded brute force or by a certified z3 model is a definite 'not entailed', z3-unsat of the world-level system is 'entailed'. Non-trivial = A&B and A&!B both satisfiable; distinct by hash(base, query).")
+RULE = ("strongly consistent bases of <= 5 atoms / <= 5 conditionals (unfalsifiable conditionals, Top/Bottom, duplicates, single-conditional bases included); judged by M5: a counter c-representation found by bounded brute force or by a certified z3 model is a definite 'not entailed', z3-unsat of the world-level system is 'entailed'. Non-trivial = A&B and A&!B both satisfiable; distinct by hash(base, query). Additionally a bounded number of LARGE bases (8-100 atoms: shipped corpora, disjoint unions of generated bases) x 6 base-derived queries are judged by the same definition evaluated with satisfiability questions instead of world enumeration (vf/bigref.py: certified models, own z3 context, no MaxSAT/Tseitin/pysmt); c-inference on large bases only through the bounds the definitions force (p-entailed => True, not lex-entailed => False).")
 ASSUMPTIONS = ['worlds are enumerated: bases of <= 6 atoms (incl. query atoms outside the signature) and <= 8 conditionals, plus a ~5% share of "wide" bases with 7-8 atoms, 9-13 conditionals or 5-7 layers; formula depth <= 3 (deep equivalent wrappers to depth 9)', 'reference semantics vf/refmodel.py is the definition quoted in the property (self-tested on textbook instances at start-up)']
-TRUSTED = ["z3 'unsat' for the world-level c-representation system (sat answers are re-checked in pure Python)"]
+TRUSTED = ["z3 'unsat' for the world-level c-representation system (sat answers are re-checked in pure Python)", "z3 'unsat' answers inside the large-base reference vf/bigref.py (its 'sat' answers are re-checked by the pure-Python evaluator)"]
 FLOOR = {'quick': 200, 'thorough': 2000}
 BUDGET = {'quick': 90, 'thorough': 1200}
 N = {'quick': 1200, 'thorough': 15000}
